@@ -10,6 +10,9 @@
 
 #include "writer.h"
 
+// Upper bound for the size of input compressed in one step (limits the size of output buffer on stack)
+static constexpr std::size_t MAX_COMPRESSION_CHUNK = 65536;
+
 void CDNS::GzipCborOutputWriter::write(const char* p, std::size_t size)
 {
     m_gzip.next_in = reinterpret_cast<const unsigned char*>(p);
@@ -60,6 +63,11 @@ void CDNS::GzipCborOutputWriter::finish()
 
 int CDNS::GzipCborOutputWriter::write_gzip(std::size_t in_size, int action)
 {
+    // The buffer lives on stack, so its size mustn't follow arbitrarily large input. Callers loop
+    // until all the input is consumed.
+    if (in_size > MAX_COMPRESSION_CHUNK)
+        in_size = MAX_COMPRESSION_CHUNK;
+
     std::size_t size = in_size + in_size / 3 + 128;
     uint8_t buff[size];
 
@@ -125,6 +133,11 @@ void CDNS::XzCborOutputWriter::finish()
 
 lzma_ret CDNS::XzCborOutputWriter::write_lzma(std::size_t in_size, lzma_action action)
 {
+    // The buffer lives on stack, so its size mustn't follow arbitrarily large input. Callers loop
+    // until all the input is consumed.
+    if (in_size > MAX_COMPRESSION_CHUNK)
+        in_size = MAX_COMPRESSION_CHUNK;
+
     std::size_t size = in_size + in_size / 3 + 128;
     uint8_t buff[size];
 
